@@ -32,6 +32,10 @@ def build_entries(repo: Repo) -> List[Tuple[FunctionInfo, tuple]]:
     E += _ctor(repo, "Plane", (PT, PT, PT), (PT, VEC, VEC), (PT, VEC), (NUM, NUM, NUM, NUM))
     E += _ctor(repo, "Segment", (PT, PT), (PT, VEC))
     E += _ctor(repo, "HalfLine", (PT, PT), (PT, VEC))
+    # wrong operand types (C15: must raise)
+    for cn in ("Segment", "HalfLine"):
+        E += _ctor(repo, cn, (NUM, NUM), (PT, NUM), (VEC, PT), (VEC, VEC), (NUM, PT))
+    E += _ctor(repo, "Pyramid", (PT, PT), (S("ConvexPolygon"), VEC), (NUM, PT))
     E += _ctor(repo, "ConvexPolygon", (seq("tuple", PT),), (seq("list", PT),),
                (seq("tuple", PT), BOOL, BOOL))
     E += _ctor(repo, "ConvexPolyhedron", (seq("tuple", S("ConvexPolygon")),))
@@ -43,6 +47,10 @@ def build_entries(repo: Repo) -> List[Tuple[FunctionInfo, tuple]]:
     ccpg, ccph = S(("cls", "ConvexPolygon")), S(("cls", "ConvexPolyhedron"))
     E.append((cpg.lookup("Parallelogram"), (ccpg, PT, VEC, VEC)))
     E.append((cpg.lookup("Circle"), (ccpg, PT, VEC, NUM, NUM)))
+    for bad in ((NUM, VEC, VEC), (PT, NUM, VEC), (PT, VEC, NUM), (VEC, VEC, VEC)):
+        E.append((cpg.lookup("Parallelogram"), (ccpg,) + bad))
+    for bad in ((NUM, VEC, VEC, VEC), (PT, NUM, VEC, VEC), (PT, VEC, NUM, VEC), (PT, VEC, VEC, NUM), (PT, VEC, VEC, PT)):
+        E.append((cph.lookup("Parallelepiped"), (ccph,) + bad))
     E.append((cph.lookup("Parallelepiped"), (ccph, PT, VEC, VEC, VEC)))
     E.append((cph.lookup("Sphere"), (ccph, PT, NUM, NUM, NUM)))
     E.append((cph.lookup("Cylinder"), (ccph, PT, NUM, VEC, NUM)))
@@ -78,8 +86,8 @@ def build_entries(repo: Repo) -> List[Tuple[FunctionInfo, tuple]]:
                     for o in (S("Line"), S("Plane")):
                         E.append((m, (me, o)))
                 elif mname == "move":
-                    E.append((m, (me, VEC)))
-                    E.append((m, (me, NUM)))
+                    for o in (VEC, NUM, PT, STR, seq("list", NUM)):
+                        E.append((m, (me, o)))
                 elif mname in ("distance", "angle", "parallel", "orthogonal"):
                     if cname == "Point" and mname == "distance":
                         E.append((m, (me, PT)))
@@ -116,17 +124,21 @@ def build_entries(repo: Repo) -> List[Tuple[FunctionInfo, tuple]]:
     for a in g7 + [NONE]:
         for b in g7 + [NONE]:
             E.append((inter, (a, b)))
+    for bad in (NUM, VEC, S("Pyramid"), STR):
+        for o in (PT, S("Line"), S("ConvexPolyhedron")):
+            E.append((inter, (bad, o)))
+            E.append((inter, (o, bad)))
     dist = repo.fn("distance", "calc.distance")
-    for a in g7:
-        for b in g7:
+    for a in g7 + [VEC, NUM]:
+        for b in g7 + [VEC, NUM]:
             E.append((dist, (a, b)))
     for name in ("angle", "parallel", "orthogonal"):
         f = repo.fn(name, "calc.angle")
-        for a in (S("Line"), S("Plane"), VEC, PT):
-            for b in (S("Line"), S("Plane"), VEC, PT):
+        for a in (S("Line"), S("Plane"), VEC, PT, S("Segment"), NUM):
+            for b in (S("Line"), S("Plane"), VEC, PT, S("Segment"), NUM):
                 E.append((f, (a, b)))
     vol = repo.fn("volume", "calc.volume")
-    for a in (S("Pyramid"), S("ConvexPolyhedron"), PT):
+    for a in (S("Pyramid"), S("ConvexPolyhedron"), PT, S("ConvexPolygon"), NUM):
         E.append((vol, (a,)))
     E.append((repo.fn("acute"), (NUM,)))
     ac = "calc.aux_calc"
